@@ -869,7 +869,7 @@ def parse_tokens(toks, rel, acc):
 
 
 def parse_file(rel, acc=None):
-    src = strip_comments(open(os.path.join(REPO, rel), encoding="utf-8").read())
+    src = strip_comments(open(os.path.join(REPO, rel), encoding="utf-8", newline="").read())
     own = acc is None
     if own:
         acc = dict(fns={}, consts={}, macros={}, impl_consts={})
@@ -1867,6 +1867,9 @@ class Fn:
     # ---------- whole function
     def translate(self):
         f = self.f
+        if REDEFINED_PRELUDE:
+            raise Unsupported("the crate defines its own %s: the prelude constructors are not what the translation assumes"
+                              % ", ".join(sorted(REDEFINED_PRELUDE)))
         env = {}
         for n, t in f["params"]:
             env[n] = t[1] if isinstance(t, tuple) and t[0] == "mutref" else t
@@ -2400,6 +2403,7 @@ def generate(targets, file_consts, out_path, header, unit, base=None):
 BUILTIN_MACROS = {"assert", "assert_eq", "assert_ne", "debug_assert", "debug_assert_eq", "debug_assert_ne", "panic",
                   "unreachable", "unimplemented", "todo", "matches"}
 REDEFINED_MACROS = set()
+REDEFINED_PRELUDE = set()
 
 
 def scan_redefined_macros():
@@ -2409,7 +2413,7 @@ def scan_redefined_macros():
         for d, _, names in os.walk(os.path.join(REPO, base)):
             for nm in names:
                 try:
-                    txt = strip_comments(open(os.path.join(d, nm), encoding="utf-8").read())
+                    txt = strip_comments(open(os.path.join(d, nm), encoding="utf-8", newline="").read())
                 except (OSError, UnicodeDecodeError):
                     continue
                 for m in re.finditer(r"\bmacro_rules!\s*(\w+)", txt):
@@ -2418,6 +2422,9 @@ def scan_redefined_macros():
                 for m in re.finditer(r"\buse\s+[\w:]*::(\w+)\s+as\s+(\w+)\s*;", txt):
                     if m.group(2) in BUILTIN_MACROS:
                         REDEFINED_MACROS.add(m.group(2))
+                # the constructors the translation gives a fixed meaning must be the prelude's
+                for m in re.finditer(r"\b(?:static|const|fn|struct|union)\s+(?:mut\s+)?(Ok|Err|Some|None)\b|\bas\s+(Ok|Err|Some|None)\b", txt):
+                    REDEFINED_PRELUDE.add(m.group(1) or m.group(2))
 
 
 def main():
